@@ -221,7 +221,13 @@ def full_case(spec):
                nt=cfg["nt"], offset=list(cfg["offset"]), src=src.tolist(), rec=recs[0].tolist(), c=c, dt=dt, dur=dur, K=K,
                seed=spec["seed"], idx=spec["idx"])
     out["sample"] = tag
-    mism, mu, rejected = fullroom.full_case(cfg, src, recs, c, dt, dur, K)
+    info = {}
+    mism, mu, rejected = fullroom.full_case(cfg, src, recs, c, dt, dur, K, info=info)
+    # the model computes the Nusselt branch itself (no form-factor value of /repo is an input)
+    out["dist"]["full_nusselt_pairs_computed_by_model"] = info.get("nusselt_pairs", 0)
+    out["dist"]["full_stokes_pairs_computed_by_model"] = info.get("visible_pairs", 0) - info.get("nusselt_pairs", 0)
+    if info.get("nusselt_pairs"):
+        out["dist"]["full_nusselt_dev_rel_1e%+03d" % int(np.ceil(np.log10(max(info["nusselt_max_rel"], 1e-17))))] = 1
     if rejected:
         out["rejected"] = 1
         return out
